@@ -28,6 +28,10 @@ def gen_case(rng, name):
         freq = np.sort(rng.uniform(0, freq[-1], len(freq)))     # non-FFT grid
     nf = len(freq)
     df = float(freq[1] - freq[0]) if nf > 1 else 1.0
+    order = None
+    if name != "savitzky_and_golay" and rng.random() < 0.12:
+        # the samples of a spectrum may be stored in any order (descending, shuffled): the kernels are sums over samples
+        order = np.arange(nf)[::-1] if rng.random() < 0.5 else rng.permutation(nf)
     nrows = int(rng.integers(1, 6))
     kind = rng.choice(["noise", "const", "poly", "spiky"])
     if kind == "const":
@@ -56,7 +60,9 @@ def gen_case(rng, name):
         else:
             fcs.append(float(freq[int(rng.integers(0, nf))] + rng.choice([-1, 1]) * 5e-7))   # within 1e-6 of a bin
     bw = gen_bw(rng, name, df)
-    case = dict(op=name, bw=bw, freq=freq.tolist(), rows=rows.tolist(), fcs=fcs, kind=str(kind), n=n, dt=dt)
+    if order is not None:
+        freq = freq[order]; rows = rows[:, order]
+    case = dict(op=name, bw=bw, freq=freq.tolist(), rows=rows.tolist(), fcs=fcs, kind=str(kind), n=n, dt=dt, sample_order=("as-generated" if order is None else "permuted"))
     if rng.random() < 0.12 and freq[-1] >= 3:
         # whole-number centre frequencies handed over as an integer (or single-precision) array, as np.array([1, 2, 5, 10]) or
         # np.arange(...) in a settings object gives: the values are the same numbers, so must the result be
@@ -177,7 +183,7 @@ def spec_probes(ctx, case, out):
 
 def run(ctx):
     ctx.rule = ("cases = operator x grid (rfftfreq(n, dt) incl. the 0 Hz bin, some irregular grids) x spectra (1-5 rows: noise over 12 decades, constant, "
-                "cubic polynomial, spiky) x centre frequencies (on grid, off grid, below first bin, above last, around the 1e-6 guard, within 1e-6 of a bin; whole numbers passed as int64/int32/float32 arrays) x "
+                "cubic polynomial, spiky) x centre frequencies (on grid, off grid, below first bin, above last, around the 1e-6 guard, within 1e-6 of a bin; whole numbers passed as int64/int32/float32 arrays) x sample order (ascending; descending / shuffled in 12 %) x "
                 "bandwidths over 2-3 decades (SG: m in {1,3,5,9,21}, even and fractional m); compiled AND interpreted (.py_func) implementation vs model; "
                 "non-trivial = >=1 centre frequency with >=2 contributing samples and a non-constant row; distinct by input hash")
     ctx.trusted += ["np.power(10, x) vs exp(x ln 10) and libm sin/log10: 1e-9 relative tolerance; samples within 1e-9 (relative) of a window limit are near ties"]
@@ -199,6 +205,7 @@ def run(ctx):
         ctx.count("op:" + c["op"])
         ctx.count("kind:" + c["kind"])
         ctx.count("fcs_dtype:" + c.get("fcs_dtype", "float64"))
+        ctx.count("sample_order:" + c.get("sample_order", "as-generated"))
         ctx.count("result:" + ("err" if isinstance(comp, str) else "zero-cols" if np.any(np.all(comp == 0, axis=0)) else "full"))
         ctx.traces += 1
 
